@@ -111,6 +111,14 @@ func c11Gen(rt *rapid.T) c11Prog {
 		}
 		return op
 	}
+	// Often start from a plain handshake and a valid login, so that the authenticated state is
+	// reached and the rest of the program is judged there; the other programs probe the early states.
+	if gPct(rt, 55) {
+		p.Ops = append(p.Ops, wOp{K: "hi", S: 1, A: "0.22"})
+		if gPct(rt, 65) {
+			p.Ops = append(p.Ops, wOp{K: "login", S: 1, A: "token", U: gInt(rt, 0, 3, "u0"), B: "valid"})
+		}
+	}
 	n := gInt(rt, 2, 12, "nops")
 	for i := 0; i < n; i++ {
 		switch x := gInt(rt, 0, 99, "opk"); {
